@@ -14,6 +14,8 @@ TRUST = ("Trusted base: the gosym engine in /verif/engine (SSA interpreter, term
 import sys
 sys.path.insert(0, '/verif/tools')
 from claims import CLAIMED, NA, NA_DEFAULT
+from claims2 import CLAIMED2
+CLAIMED = dict(CLAIMED); CLAIMED.update(CLAIMED2)
 
 def main():
     props = [json.loads(l) for l in open('/verif/properties.jsonl')]
